@@ -280,7 +280,10 @@ func runC06(c *kit.Ctx) {
 						fromStart = true
 					}
 					if nm == "builtin.append" {
-						walk(x.Call.Args[0])
+						// what is appended to, and what is appended (tmp = append(tmp, rsk[:last]...))
+						for _, a := range x.Call.Args {
+							walk(a)
+						}
 					}
 				case *ssa.Slice:
 					walk(x.X)
@@ -355,6 +358,16 @@ func moreResultsFirst(c *kit.Ctx) {
 			}
 			if cmp, ok := kit.CanonCmp(iff.Cond, true); ok && kit.IsNilConst(cmp.Y) {
 				if _, f := kit.FieldRead(cmp.X); f != nil && f.Name() == "MoreResults" {
+					mrIf = iff
+				}
+			}
+			// the generated getter reads the same flag (nil reads as false)
+			cond := iff.Cond
+			if u, ok := cond.(*ssa.UnOp); ok && u.Op == token.NOT {
+				cond = u.X
+			}
+			if call, ok := cond.(*ssa.Call); ok {
+				if fn := kit.StaticCallee(call); fn != nil && fn.Name() == "GetMoreResults" {
 					mrIf = iff
 				}
 			}
